@@ -169,3 +169,32 @@ Proof.
          (d2_rs 2%N 0 []), (d2_rs 3%N 0 [MkCond CT_CanaryFailed CTrue 0 0 0%N 0%N]), (601 * second).
   split; [reflexivity|]. split; [vm_compute; reflexivity | discriminate].
 Qed.
+
+(** ** what "ended by time" reads *)
+(** "ended by time" reads two things of the replica set and nothing else: its creation time and its restart record. Its
+    other conditions - its own Canary condition in particular, however young - do not enter: a restart recorded before the
+    replica set was reused by a later canary still holds the promotion back for noRestartsDuration. *)
+Theorem ended_reads_only : forall oc rs rs' now,
+  r_created rs = r_created rs' ->
+  get_cond (rs_conds (r_status rs)) CT_PodRestarting = get_cond (rs_conds (r_status rs')) CT_PodRestarting ->
+  canary_ended oc rs now = canary_ended oc rs' now.
+Proof. intros oc rs rs' now Hc Hr. unfold canary_ended. rewrite Hc, Hr. reflexivity. Qed.
+
+(** ... in particular: with a restart record younger than noRestartsDuration the canary has not ended, whatever else the
+    status says *)
+Theorem recent_restart_holds_back : forall c d nrd rc rs now,
+  ca_duration c = Some d -> ca_norestarts c = Some nrd ->
+  get_cond (rs_conds (r_status rs)) CT_PodRestarting = Some rc -> is_zero_time (c_update rc) = false ->
+  now <= tadd (c_update rc) nrd ->
+  fst (canary_ended (Some c) rs now) = false.
+Proof.
+  intros c d nrd rc rs now Hd Hn Hr Hz Hle. unfold canary_ended. rewrite Hd, Hn, Hr, Hz. cbn [negb].
+  assert (Hx : 0 <= tsub (tadd (c_update rc) nrd) now).
+  { unfold tsub, max_dur, min_dur. destruct (tadd (c_update rc) nrd - now >? 9223372036854775807); [lia|].
+    destruct (tadd (c_update rc) nrd - now <? -9223372036854775808) eqn:E; [apply Z.ltb_lt in E; lia | lia]. }
+  set (X := tsub (tadd (c_update rc) nrd) now) in *. set (Y := tsub (tadd (r_created rs) d) now).
+  destruct (X >? Y) eqn:E.
+  - assert (Hp : X >=? 0 = true) by (apply Z.geb_le; lia). rewrite Hp. reflexivity.
+  - assert (Hp : Y >=? 0 = true) by (apply Z.geb_le; rewrite Z.gtb_ltb in E; apply Z.ltb_ge in E; lia).
+    rewrite Hp. reflexivity.
+Qed.
